@@ -225,7 +225,7 @@ def generate(ctx, n, size, mode="natural"):
                 t["release"] = rel.get(t["tid"], 0)
             h["script"] = []
             h["frequency"] = ctx.rng.choice([-1, 2, 3, 5, 8])
-            h["max_inv"] = 24
+            h["max_inv"] = 16 if size <= 4 else 24
             h["loop_timeout"] = 160
     out = core.run_impl("clockwork.py", {"histories": hs})["histories"]
     return hs, out
@@ -461,7 +461,7 @@ RULE = ("S-cw: histories of 1..%d schedule() invocations of the real ClockworkSc
         "applied to the live cluster and finish later, both goals; variants: tight (deadline = now + a strategy runtime +-1), ties "
         "(strategies of equal batch size and runtime, equal deadlines), adversarial (decisions not applied / retracted, so placed "
         "requests come back), load (scheduler_run_load on, LOAD/EVICT answer recorded), sim (the real Simulator event loop is the "
-        "environment: it releases, places, runs and completes the requests and decides when schedule() runs; up to 24 "
+        "environment: it releases, places, runs and completes the requests and decides when schedule() runs; up to 16 (quick) / 24 "
         "invocations); the model receives what the implementation "
         "was offered and saw; distinct = distinct history; non-trivial = >= 2 invocations, a batch placed, and a cancellation or a "
         "request carried over")
@@ -474,7 +474,7 @@ def run(ctx):
     quick = ctx.tier == "quick"
     size = 4 if quick else 6
     plan = [("natural", 240 if quick else 4000), ("tight", 100 if quick else 1500), ("ties", 80 if quick else 1000),
-            ("adversarial", 70 if quick else 1000), ("load", 50 if quick else 600), ("sim", 50 if quick else 600)]
+            ("adversarial", 70 if quick else 1000), ("load", 50 if quick else 600), ("sim", 30 if quick else 600)]
     ctx.rules.append(RULE % size)
     dist_all = {}
     for mode, n in plan:
